@@ -293,7 +293,16 @@ static void mpmcRun(const char* name) {
 }
 
 static void wlMpmc() {
-  switch (pick(5)) {
+  switch (pick(8)) {
+    case 5:
+      mpmcRun<dispenso::MpmcRingBuffer<Elem, 5, false>>("mpmc-cap5-exact");
+      break;
+    case 6:
+      mpmcRun<dispenso::MpmcRingBuffer<Elem, 6, false>>("mpmc-cap6-exact");
+      break;
+    case 7:
+      mpmcRun<dispenso::MpmcRingBuffer<Elem, 2, false>>("mpmc-cap2-exact");
+      break;
     case 0:
       mpmcRun<dispenso::MpmcRingBuffer<Elem, 2, true>>("mpmc-cap2");
       break;
@@ -447,7 +456,21 @@ static void spscRun(const char* name) {
 }
 
 static void wlSpsc() {
-  switch (pick(4)) {
+  // power-of-two rounding and exact capacities; for exact mode both kinds of ring size (capacity+1 a power
+  // of two or not), because index arithmetic differs
+  switch (pick(8)) {
+    case 4:
+      spscRun<dispenso::SPSCRingBuffer<Elem, 2, false>>("spsc-cap2-exact");
+      break;
+    case 5:
+      spscRun<dispenso::SPSCRingBuffer<Elem, 4, false>>("spsc-cap4-exact");
+      break;
+    case 6:
+      spscRun<dispenso::SPSCRingBuffer<Elem, 5, false>>("spsc-cap5-exact");
+      break;
+    case 7:
+      spscRun<dispenso::SPSCRingBuffer<Elem, 6, false>>("spsc-cap6-exact");
+      break;
     case 0:
       spscRun<dispenso::SPSCRingBuffer<Elem, 2, true>>("spsc-cap2");
       break;
@@ -606,13 +629,22 @@ struct TrFull {
   static constexpr bool kIteratorPreferSpeed = false;
 };
 
+// ConcurrentVector sizes its first buckets in bytes (512): with small elements nothing below 64 elements
+// ever allocates a second bucket.  The vector workloads use a 128-byte element so that bucket boundaries
+// (4, 8, 16, 32, ...) are crossed by short programs.
+struct VElem : Elem {
+  char pad[120];
+  VElem() noexcept {}
+  explicit VElem(int t) noexcept : Elem(t) {}
+};
+
 template <typename Traits>
 static void vectorRun(const char* name) {
   char cls[128];
   g_live = 0;
   {
     size_t startCap = chance(1, 2) ? 2 : 4;
-    dispenso::ConcurrentVector<Elem, Traits> vec(startCap, dispenso::ReserveTag);
+    dispenso::ConcurrentVector<VElem, Traits> vec(startCap, dispenso::ReserveTag);
     int nGrowers = range(2, 4);
     int opsEach = range(1, 10);
     sim_note("growers", nGrowers);
@@ -643,13 +675,13 @@ static void vectorRun(const char* name) {
     std::vector<std::thread> threads;
     for (int gidx = 0; gidx < nGrowers; ++gidx) {
       threads.emplace_back([&]() {
-        const Elem* pinned = nullptr;
+        const VElem* pinned = nullptr;
         int pinnedTag = -1;
         for (int i = 0; i < opsEach; ++i) {
           int tag = nextTag++;
           switch (sim_step() % 4) {
             case 0: {
-              auto it = vec.push_back(Elem(tag));
+              auto it = vec.push_back(VElem(tag));
               claim((size_t)(it - vec.begin()), tag);
               totalGrowth++;
               if (!pinned) {
@@ -665,8 +697,8 @@ static void vectorRun(const char* name) {
               break;
             }
             case 2: {
-              size_t n = 1 + sim_step() % 5;
-              auto it = vec.grow_by(n, Elem(tag));
+              size_t n = 1 + sim_step() % (((sim_step() >> 3) & 1) ? 5 : 24); // short ranges, and ranges spanning buckets
+              auto it = vec.grow_by(n, VElem(tag));
               size_t base = (size_t)(it - vec.begin());
               for (size_t k = 0; k < n; ++k)
                 claim(base + k, tag);
@@ -674,8 +706,8 @@ static void vectorRun(const char* name) {
               break;
             }
             default: {
-              size_t n = 1 + sim_step() % 5;
-              auto it = vec.grow_by_generator(n, [tag]() { return Elem(tag); });
+              size_t n = 1 + sim_step() % (((sim_step() >> 3) & 1) ? 5 : 24); // short ranges, and ranges spanning buckets
+              auto it = vec.grow_by_generator(n, [tag]() { return VElem(tag); });
               size_t base = (size_t)(it - vec.begin());
               for (size_t k = 0; k < n; ++k)
                 claim(base + k, tag);
@@ -697,7 +729,7 @@ static void vectorRun(const char* name) {
           if (!pub.f[i].load(std::memory_order_acquire))
             break;
           // only elements whose growth call has returned are published
-          const Elem& e = vec[i];
+          const VElem& e = vec[i];
           if (e.canary != 0xE1E3 || e.tag != owner[i]) {
             snprintf(cls, sizeof cls, "%s:published-element-damaged", name);
             sim_fail(cls, "element %zu reads tag %d canary %x, expected tag %d", i, e.tag, e.canary, owner[i]);
@@ -726,8 +758,8 @@ static void vectorRun(const char* name) {
     }
     // grow_to_at_least from two threads
     size_t target = vec.size() + 1 + pick(9);
-    std::thread a([&]() { vec.grow_to_at_least(target, Elem(7777)); });
-    std::thread b([&]() { vec.grow_to_at_least(target - (target > 3 ? 2 : 0), Elem(7777)); });
+    std::thread a([&]() { vec.grow_to_at_least(target, VElem(7777)); });
+    std::thread b([&]() { vec.grow_to_at_least(target - (target > 3 ? 2 : 0), VElem(7777)); });
     a.join();
     b.join();
     // "at least": two racing calls may both grow, so the size may exceed the larger request, but
@@ -757,6 +789,116 @@ static void wlVector() {
       break;
     default:
       vectorRun<TrFull>("vector-fullahead");
+      break;
+  }
+}
+
+// A range growth that ends at or next to a bucket's last slots, racing single-element growths that take
+// the following indices: the bucket that follows may be allocated by more than one of them, and whatever
+// was written into a buffer that loses that race is gone.  Few threads, short program, sizes aimed at the
+// bucket geometry (first bucket c0, then c0, 2*c0, 4*c0, ...).
+template <typename Traits>
+static void vectorBoundaryRun(const char* name) {
+  char cls[128];
+  g_live = 0;
+  {
+    size_t c0 = chance(1, 2) ? 2 : 4;
+    dispenso::ConcurrentVector<VElem, Traits> vec(c0, dispenso::ReserveTag);
+    // bucket boundaries: c0, 2c0, 4c0, 8c0, ...
+    size_t boundary = c0 << range(1, 3);         // end of some bucket
+    size_t half = boundary - (boundary >> 2);    // inside its second half
+    static const int deltas[] = {0, -1, 1, -2};
+    size_t end = (chance(1, 2) ? boundary : half) + (size_t)(long)oneOf(deltas);
+    size_t prefill = (size_t)range(1, (int)std::min<size_t>(end - 1, 9));
+    int nPushers = range(2, 3);
+    int gateMode = (int)pick(3); // pushers start: at once / when the range is about to be published / late
+    sim_note("c0", (int64_t)c0);
+    sim_note("end", (int64_t)end);
+    sim_note("prefill", (int64_t)prefill);
+    sim_note("pushers", nPushers);
+    static const int kMaxIdx = 256;
+    std::vector<int>& owner = immortal<std::vector<int>>(kMaxIdx, -1);
+    int nextTag = 0;
+    for (size_t i = 0; i < prefill; ++i) {
+      int tag = nextTag++;
+      auto it = vec.push_back(VElem(tag));
+      owner[(size_t)(it - vec.begin())] = tag;
+    }
+    const VElem* pinned = &vec[0];
+    int total = (int)prefill;
+    auto claim = [&](size_t idx, int tag) {
+      if (idx >= (size_t)kMaxIdx)
+        return;
+      if (owner[idx] != -1) {
+        snprintf(cls, sizeof cls, "%s:index-handed-out-twice", name);
+        sim_fail(cls, "index %zu returned to two growth operations (tags %d and %d)", idx, owner[idx], tag);
+      }
+      owner[idx] = tag;
+    };
+    std::vector<std::thread> threads;
+    size_t n = end - prefill;
+    int rangeTag = nextTag++;
+    threads.emplace_back([&, n, rangeTag]() {
+      auto it = chance(1, 2) ? vec.grow_by_generator(n, [rangeTag]() { return VElem(rangeTag); }) : vec.grow_by(n, VElem(rangeTag));
+      size_t base = (size_t)(it - vec.begin());
+      for (size_t k = 0; k < n; ++k)
+        claim(base + k, rangeTag);
+      total += (int)n;
+    });
+    for (int p = 0; p < nPushers; ++p) {
+      int k = range(1, 2);
+      int t0 = nextTag;
+      nextTag += k;
+      threads.emplace_back([&, k, t0]() {
+        if (gateMode == 1)
+          for (int i = 0; i < 20000 && vec.size() < end - 1; ++i)
+            sim_work(1);
+        else if (gateMode == 2)
+          sim_work(range(0, 60));
+        for (int j = 0; j < k; ++j) {
+          auto it = (j & 1) ? vec.emplace_back(t0 + j) : vec.push_back(VElem(t0 + j));
+          claim((size_t)(it - vec.begin()), t0 + j);
+          total++;
+        }
+      });
+    }
+    for (auto& t : threads)
+      t.join();
+    if ((int)vec.size() != total) {
+      snprintf(cls, sizeof cls, "%s:size-mismatch", name);
+      sim_fail(cls, "size() is %zu, total growth %d", vec.size(), total);
+    }
+    for (int i = 0; i < total && i < kMaxIdx; ++i) {
+      if (owner[(size_t)i] < 0) {
+        snprintf(cls, sizeof cls, "%s:index-gap", name);
+        sim_fail(cls, "index %d below size() was never returned by a growth call", i);
+      }
+      if (vec[(size_t)i].tag != owner[(size_t)i] || vec[(size_t)i].canary != 0xE1E3) {
+        snprintf(cls, sizeof cls, "%s:element-overwritten", name);
+        sim_fail(cls, "element %d holds tag %d, expected %d (range ended at %zu, first bucket %zu)", i, vec[(size_t)i].tag,
+                 owner[(size_t)i], end, c0);
+      }
+    }
+    if (pinned != &vec[0] || pinned->tag != 0) {
+      snprintf(cls, sizeof cls, "%s:reference-invalidated", name);
+      sim_fail(cls, "a reference to element 0 taken before the growth is no longer that element");
+    }
+  }
+  if (g_live != 0) {
+    snprintf(cls, sizeof cls, "%s:lifetime-imbalance", name);
+    sim_fail(cls, "%d elements alive after destruction", g_live);
+  }
+}
+static void wlVectorBoundary() {
+  switch (pick(3)) {
+    case 0:
+      vectorBoundaryRun<TrAsNeeded>("vector-asneeded");
+      break;
+    case 1:
+      vectorBoundaryRun<TrHalf>("vector-halfahead");
+      break;
+    default:
+      vectorBoundaryRun<TrFull>("vector-fullahead");
       break;
   }
 }
@@ -886,6 +1028,7 @@ static void wlArena() {
 } // namespace
 
 HX_WORKLOAD("C33", "vector", wlVector, SF_ALL, 3000000, 3000000, 1);
+HX_WORKLOAD("C33", "vector-boundary", wlVectorBoundary, SF_ALL, 3000000, 3000000, 2);
 HX_WORKLOAD("C34", "mpmc", wlMpmc, SF_ALL, 3000000, 3000000, 1);
 HX_WORKLOAD("C35", "spsc", wlSpsc, SF_ALL, 3000000, 3000000, 1);
 HX_WORKLOAD("C36", "deque", wlDeque, SF_ALL | SF_TSO, 3000000, 3000000, 1);
